@@ -409,6 +409,11 @@ impl PrefixInformation {
         self.flags.contains(PrefixInfoFlags::ADDRCONF)
             && !self.prefix.is_link_local()
             && self.preferred_lifetime <= self.valid_lifetime
+            // The fields below come straight off the wire: a prefix cannot be longer
+            // than an address, and an address can only be configured from a unicast
+            // prefix.
+            && self.prefix_len <= 128
+            && !self.prefix.is_multicast()
     }
 }
 
